@@ -588,7 +588,12 @@ pub fn walk_node_for_targets(targets: &HashSet<Target>, node: Node) -> Vec<Node>
                 matches.append(&mut walk_node_for_targets(targets, expression.into()));
             }
 
-            pt::Statement::Try(_, expression, option_paramlist_box_statement, _) => {
+            pt::Statement::Try(
+                _,
+                expression,
+                option_paramlist_box_statement,
+                vec_catch_clause,
+            ) => {
                 matches.append(&mut walk_node_for_targets(targets, expression.into()));
 
                 if option_paramlist_box_statement.is_some() {
@@ -604,6 +609,29 @@ pub fn walk_node_for_targets(targets: &HashSet<Target>, node: Node) -> Vec<Node>
                     }
 
                     matches.append(&mut walk_node_for_targets(targets, box_statement.into()));
+                }
+
+                //Walk the catch clauses for targets
+                for catch_clause in vec_catch_clause {
+                    match catch_clause {
+                        pt::CatchClause::Simple(_, option_parameter, statement) => {
+                            if option_parameter.is_some() {
+                                matches.append(&mut walk_node_for_targets(
+                                    targets,
+                                    option_parameter.unwrap().ty.into(),
+                                ));
+                            }
+
+                            matches.append(&mut walk_node_for_targets(targets, statement.into()));
+                        }
+
+                        pt::CatchClause::Named(_, _, parameter, statement) => {
+                            matches
+                                .append(&mut walk_node_for_targets(targets, parameter.ty.into()));
+
+                            matches.append(&mut walk_node_for_targets(targets, statement.into()));
+                        }
+                    }
                 }
             }
 
